@@ -104,3 +104,163 @@ Lemma timeout_loses_nothing_copying_proof : forall P (F : framer P) bufsize tz c
     breceive (cnext_opt F) bufsize false c false (patient (bdata_of consumed) ++ evs1)
     = breceive (cnext_opt F) bufsize false c1 false evs1.
 Proof. intros. eapply timeout_loses_nothing_proof; [apply cnext_stop | eassumption]. Qed.
+
+(* ================= buffer-filling blocking receiver ================= *)
+Section ProofsBuffered.
+  Context {C R : Type}.
+  Variable bdrain : C -> C * option R.
+  Variable broom : C -> option (C * nat).
+  Variable bfeedn : C -> bytes -> C * option R.
+  (* [Dr c]: c is drained (its last next() raised StopIteration, no view exported); [Iv c]: a state a call may start in *)
+  Variable Dr : C -> Prop.
+  Variable Iv : C -> Prop.
+  Hypothesis A0 : forall c c', Iv c -> bdrain c = (c', None) -> Dr c'.
+  Hypothesis A1 : forall c, Dr c -> bdrain c = (c, None).
+  Hypothesis A2 : forall c c1 room, Dr c -> broom c = Some (c1, room) ->
+      exists c2, bdrain c1 = (c2, None) /\ Dr c2 /\ broom c2 = Some (c1, room).
+  Hypothesis A3 : forall c c1 room d c', Dr c -> broom c = Some (c1, room) -> bfeedn c1 d = (c', None) -> Dr c'.
+
+  Notation loopb := (bloopb broom bfeedn).
+
+  (* the loop only looks at its consumer through get_write_buffer() *)
+  Lemma bloopb_room_eq : forall evs tz c c' x, broom c = Some x -> broom c' = Some x ->
+    loopb evs tz c false = loopb evs tz c' false.
+  Proof.
+    intros evs tz c c' [c1 room] H H'. destruct evs as [|e evs]; simpl; rewrite H, H'; reflexivity.
+  Qed.
+
+  Lemma bloopb_timeout : forall evs tz c c1 e1 evs1,
+    Dr c -> loopb evs tz c false = (c1, e1, evs1, BTimedOut) ->
+    exists consumed cd,
+      evs = consumed ++ evs1 /\ e1 = false /\ Dr cd /\
+      (c1 = cd \/ exists room, broom cd = Some (c1, room)) /\
+      loopb (patient (bdata_of consumed) ++ evs1) false c false = loopb evs1 false cd false.
+  Proof.
+    induction evs as [|e evs IH]; intros tz c c1 e1 evs1 HD H; simpl in H.
+    - destruct (broom c) as [[c0 room]|]; discriminate.
+    - destruct (broom c) as [[c0 room]|] eqn:Hroom; [|discriminate].
+      destruct e as [b x| |].
+      + destruct (nilb b) eqn:Eb; [discriminate|].
+        destruct (Nat.ltb room (length b)) eqn:Efit; [discriminate|].
+        destruct (bfeedn c0 b) as [c' [r|]] eqn:En; [discriminate|].
+        assert (HD' : Dr c') by (eapply A3; eassumption).
+        assert (Hstep : forall rest, loopb (patient [b] ++ rest) false c false = loopb rest false c' false).
+        { intro rest. simpl. rewrite Hroom, Eb, Efit, En. reflexivity. }
+        assert (Hrec : forall tz', loopb evs tz' c' false = (c1, e1, evs1, BTimedOut) ->
+                  exists consumed cd,
+                    BData b x :: evs = consumed ++ evs1 /\ e1 = false /\ Dr cd /\
+                    (c1 = cd \/ exists room, broom cd = Some (c1, room)) /\
+                    loopb (patient (bdata_of consumed) ++ evs1) false c false = loopb evs1 false cd false).
+        { intros tz' H'. destruct (IH tz' c' c1 e1 evs1 HD' H') as (consumed & cd & E1 & E2 & E3 & E4 & E5).
+          exists (BData b x :: consumed), cd. split; [rewrite E1; reflexivity|]. repeat (split; [assumption|]).
+          change (bdata_of (BData b x :: consumed)) with (b :: bdata_of consumed).
+          change (patient (b :: bdata_of consumed) ++ evs1) with (patient [b] ++ (patient (bdata_of consumed) ++ evs1)).
+          rewrite Hstep. exact E5. }
+        destruct tz.
+        * destruct (Nat.ltb (length b) room).
+          -- inversion H; subst. exists [BData b x], c1. split; [reflexivity|]. split; [reflexivity|].
+             split; [exact HD'|]. split; [left; reflexivity|]. change (bdata_of [BData b x]) with [b]. apply Hstep.
+          -- apply (Hrec true). exact H.
+        * apply (Hrec x). exact H.
+      + discriminate.
+      + inversion H; subst. exists [BTimeout], c. split; [reflexivity|]. split; [reflexivity|]. split; [exact HD|].
+        split; [right; exists room; exact Hroom | reflexivity].
+  Qed.
+
+  Lemma timeout_loses_nothing_buffered_proof : forall tz c evs c1 e1 evs1,
+    Iv c ->
+    breceiveb bdrain broom bfeedn tz c false evs = (c1, e1, evs1, BTimedOut) ->
+    exists consumed,
+      evs = consumed ++ evs1 /\ e1 = false /\
+      breceiveb bdrain broom bfeedn false c false (patient (bdata_of consumed) ++ evs1)
+      = breceiveb bdrain broom bfeedn false c1 false evs1.
+  Proof.
+    intros tz c evs c1 e1 evs1 HI H. unfold breceiveb in *.
+    destruct (bdrain c) as [c0 [r|]] eqn:En; [discriminate|].
+    assert (HD0 : Dr c0) by (eapply A0; eassumption).
+    destruct (bloopb_timeout _ _ _ _ _ _ HD0 H) as (consumed & cd & E1 & E2 & HDd & Hc1 & E5).
+    exists consumed. split; [exact E1|]. split; [exact E2|].
+    rewrite E5. destruct Hc1 as [-> | (room & Hroom)].
+    - rewrite (A1 _ HDd). reflexivity.
+    - destruct (A2 _ _ _ HDd Hroom) as (c2 & Hd2 & HD2 & Hr2). rewrite Hd2.
+      symmetry. eapply bloopb_room_eq; eassumption.
+  Qed.
+End ProofsBuffered.
+
+(* BufferedStreamDataConsumer satisfies the four hypotheses, for every buffered framer:
+   Dr = nothing pending, no exported view;  Iv = a consumer without a running generator has nothing pending either *)
+Definition buf_Dr {P} {F : bframer P} (c : bcstate F) : Prop := balready c = 0 /\ bexported c = None.
+Definition buf_Iv {P} {F : bframer P} (c : bcstate F) : Prop := bcons c = None -> balready c = 0 /\ bexported c = None.
+
+Lemma buf_A0 : forall P (F : bframer P) h c c', buf_Iv c -> bufc_drain F h c = (c', None) -> buf_Dr c'.
+Proof.
+  intros P F h c c' HI H. unfold bufc_drain, bcnext in H. simpl in H.
+  destruct (bcons c) as [st|] eqn:Ec.
+  - destruct (balready c =? 0).
+    + inversion H; subst. split; reflexivity.
+    + destruct (bfeed F st _ _); simpl in H; try discriminate.
+      inversion H; subst. split; reflexivity.
+  - inversion H; subst. exact (HI Ec).
+Qed.
+
+Lemma buf_A1 : forall P (F : bframer P) h c, buf_Dr c -> bufc_drain F h c = (c, None).
+Proof.
+  intros P F h c (Hal & Hex). unfold bufc_drain, bcnext. simpl.
+  destruct c as [m st al ex co]. simpl in *. subst al ex.
+  destruct co; reflexivity.
+Qed.
+
+Lemma buf_A2 : forall P (F : bframer P) h c c1 room, buf_Dr c -> bufc_room F h c = Some (c1, room) ->
+  exists c2, bufc_drain F h c1 = (c2, None) /\ buf_Dr c2 /\ bufc_room F h c2 = Some (c1, room).
+Proof.
+  intros P F h c c1 room (Hal & Hex) Hroom.
+  unfold bufc_room, bc_get_write_buffer in Hroom. rewrite Hex in Hroom.
+  destruct c as [m st al ex co]. simpl in *. subst al ex.
+  set (mem := match m with Some m0 => m0 | None => repeat 0%N (balloc F h) end) in *.
+  destruct (match co with Some s => (s, st) | None => binit F end) as [cons0 start] eqn:Ecs.
+  rewrite Nat.add_0_r in Hroom.
+  destruct (Nat.eqb (length mem - start) 0) eqn:Elen; [discriminate|].
+  inversion Hroom; subst c1 room. clear Hroom.
+  eexists. split; [|split].
+  - unfold bufc_drain, bcnext. simpl. reflexivity.
+  - split; reflexivity.
+  - unfold bufc_room, bc_get_write_buffer. simpl. rewrite Nat.add_0_r, Elen. reflexivity.
+Qed.
+
+Lemma buf_A3 : forall P (F : bframer P) h c c1 room d c',
+  buf_Dr c -> bufc_room F h c = Some (c1, room) -> bufc_feed F h c1 d = (c', None) -> buf_Dr c'.
+Proof.
+  intros P F h c c1 room d c' (Hal & Hex) Hroom H.
+  unfold bufc_room, bc_get_write_buffer in Hroom. rewrite Hex in Hroom.
+  destruct c as [m st al ex co]. simpl in *. subst al ex.
+  set (mem := match m with Some m0 => m0 | None => repeat 0%N (balloc F h) end) in *.
+  destruct (match co with Some s => (s, st) | None => binit F end) as [cons0 start] eqn:Ecs.
+  rewrite Nat.add_0_r in Hroom.
+  destruct (Nat.eqb (length mem - start) 0) eqn:Elen; [discriminate|].
+  inversion Hroom; subst c1 room. clear Hroom.
+  unfold bufc_feed, bcnext, bc_fill in H. simpl in H.
+  destruct (Nat.ltb (length mem - start) (length d)); [simpl in H; discriminate|].
+  destruct (length d + 0 =? 0).
+  - inversion H; subst. split; reflexivity.
+  - destruct (bfeed F cons0 _ _); simpl in H; try discriminate.
+    inversion H; subst. split; reflexivity.
+Qed.
+
+Lemma timeout_loses_nothing_buffered_consumer_proof :
+  forall P (F : bframer P) h tz (c : bcstate F) evs c1 e1 evs1,
+    buf_Iv c ->
+    breceiveb (bufc_drain F h) (bufc_room F h) (bufc_feed F h) tz c false evs = (c1, e1, evs1, BTimedOut) ->
+    exists consumed,
+      evs = consumed ++ evs1 /\ e1 = false /\
+      breceiveb (bufc_drain F h) (bufc_room F h) (bufc_feed F h) false c false (patient (bdata_of consumed) ++ evs1)
+      = breceiveb (bufc_drain F h) (bufc_room F h) (bufc_feed F h) false c1 false evs1.
+Proof.
+  intros P F h tz c evs c1 e1 evs1 HI H.
+  eapply (timeout_loses_nothing_buffered_proof (bufc_drain F h) (bufc_room F h) (bufc_feed F h) buf_Dr buf_Iv).
+  - intros; eapply buf_A0; eassumption.
+  - intros; apply buf_A1; assumption.
+  - intros; eapply buf_A2; eassumption.
+  - intros; eapply buf_A3; eassumption.
+  - exact HI.
+  - exact H.
+Qed.
